@@ -1,15 +1,13 @@
-(* C02 -- property theorems. This file holds ONLY statements, `exact <lemma>`, a non-vacuity example and
+(* C02 -- property theorems. This file holds ONLY statements, `exact <lemma>`, non-vacuity examples and
    Print Assumptions.  Model: Model/C02_template.v (render = FileSet.get_filename, parse = the regex of
    _fill_placeholders + re.match, info = get_info); calendar: Base/Calendar.v.
 
-   NOT PROVED (kept as comments, evaluated on every generated case by tools/props/c02.py instead):
-     roundtrip_end_partial : end_partial tp = true -> complete tp (fields s) (fields e) = Some c ->
-        valid (roll (unit_above tp) s c) -> ... -> info c tp n = Ok (s, roll (unit_above tp) s c, attrs)
-     end_partial_exact     : ... the end spells every sub-unit field the start spells ->
-        0 <= e - s < unit_above tp -> roll (unit_above tp) s c = e
-     parse_sound           : parse tp n = Ok b -> n is an instance of the template whose first occurrences are b
-   (the first two are the sub-day "end_hour/end_minute/end_second" clause; the third the rejection clause, of
-   which only the trivial direction no_match_rejected is a theorem). *)
+   Every clause of the statement is a theorem here: parse_render / parse_sound / parse_complete /
+   rejected_iff_no_instance (names), no_end_fields / roundtrip_end_full / roundtrip_end_partial /
+   end_partial_exact / roundtrip_end_partial_exact / roundtrip_start (times), handler_overrides(_partial) /
+   handler_only (info_via), unknown_placeholder / unfilled_placeholder / no_match_rejected (errors).
+   Outside the statement and not claimed: end-field sets other than "as complete as the start" or a sub-day suffix
+   (end_day alone with the 31-day "month", end_doy without an end year). *)
 From Coq Require Import ZArith List Bool Ascii String.
 From Typhon Require Import Base.Calendar Base.CalendarProofs Model.C02_template Proofs.C02_template.
 Import ListNotations.
@@ -23,6 +21,29 @@ Theorem parse_render : forall tp s e fill n,
   exists ps, pieces (fields s) (fields e) fill tp = Ok ps /\ n = text_of ps /\
              parse tp n = Ok (first_only (binds_of ps)).
 Proof. exact parse_render_thm. Qed.
+
+(* whatever parse_filename accepts is an instance of the template: the name is the template with each placeholder
+   occurrence replaced by a word of its regex (b lists them in template order, `*` by newline-free words), and the
+   dictionary returned is the first occurrence of each key -- so a name that is no instance is never mis-parsed *)
+Theorem parse_sound : forall tp n d, parse tp n = Ok d ->
+  exists b, d = first_only b /\ is_instance tp b n.
+Proof. exact parse_sound_thm. Qed.
+
+(* conversely every instance is accepted (the backtracking of lazy quantifiers and alternations loses nothing) *)
+Theorem parse_complete : forall tp b n, existsb unknown_tok tp = false -> is_instance tp b n ->
+  exists d, parse tp n = Ok d.
+Proof. exact parse_complete_thm. Qed.
+
+(* hence the ValueError of parse_filename is raised exactly on the names that are no instance of the template *)
+Theorem rejected_iff_no_instance : forall tp n, existsb unknown_tok tp = false ->
+  (parse tp n = Error ENoMatch <-> forall b, ~ is_instance tp b n).
+Proof. exact rejected_iff_thm. Qed.
+
+(* the per-name certificate of the harness (occurrence strings and `*` words found by search, checked by
+   `assemble` in Coq) is a proof that the accepted name is an instance *)
+Theorem instance_certificate : forall tp b ws n, fst (run_instance tp b ws n) = true ->
+  is_instance tp (map (fun kv => (fst kv, s2l (snd kv))) b) (s2l n).
+Proof. exact run_instance_sound. Qed.
 
 (* a template without end fields: start s, end = s + time_coverage (or s for discrete files), attributes = fill;
    years 1000-9999 resp. 1965-2064, leap days and doy 366 included (start_ok) *)
@@ -44,22 +65,42 @@ Theorem roundtrip_end_full : forall c tp s e fill n,
   exists attrs, attrs_are fill tp attrs /\ info c tp n = Ok (s, e, attrs).
 Proof. exact roundtrip_end_full_thm. Qed.
 
-(* the start is recovered -- proved for templates without end fields and with a complete end; the sub-day
-   end kind (roundtrip_end_partial above) is missing, hence _partial *)
-Theorem roundtrip_start_partial : forall c tp s e fill n,
-  start_ok tp s -> valid e -> s <= e -> no_parse_only (end_fields tp) = true ->
-  (end_fields tp = [] /\ 1000 <= year (fields e) /\ (forall d, coverage c = Some d -> valid (s + d)) \/
-   end_full tp = true /\ in_range (end_fields tp) (fields e) = true /\ at_resolution (end_fields tp) (fields e) = true) ->
+(* only sub-day end fields (end_hour / end_minute / end_second / end_millisecond): start s; the end is e's spelt
+   fields completed by the fields of s (`complete`), moved on by one day / hour / minute -- the unit above the
+   coarsest spelt end field -- iff it would precede s (`roll`); OverflowError past 9999-12-31 *)
+Theorem roundtrip_end_partial : forall c tp s e fill n,
+  start_ok tp s -> valid e -> s <= e -> end_partial tp = true ->
+  deterministic fill tp = true -> info_via c = ViaFilename -> render tp s e fill = Ok n ->
+  exists r attrs, complete tp (fields s) (fields e) = Some r /\ attrs_are fill tp attrs /\
+    info c tp n = if validb (roll (unit_above tp) s r) then Ok (s, roll (unit_above tp) s r, attrs)
+                  else Error EOverflow.
+Proof. exact roundtrip_end_partial_le_thm. Qed.
+
+(* the completed and rolled end is e itself whenever, below that unit, the end spells every field the start
+   spells, e has nothing in unspelt fields (end_exact) and 0 <= e - s < unit -- across day, month and year ends *)
+Theorem end_partial_exact : forall tp s e,
+  start_ok tp s -> valid e -> end_partial tp = true -> end_exact tp (fields e) = true ->
+  0 <= e - s < unit_above tp ->
+  exists r, complete tp (fields s) (fields e) = Some r /\ roll (unit_above tp) s r = e.
+Proof. exact end_partial_exact_thm. Qed.
+
+Theorem roundtrip_end_partial_exact : forall c tp s e fill n,
+  start_ok tp s -> valid e -> end_partial tp = true -> end_exact tp (fields e) = true ->
+  0 <= e - s < unit_above tp ->
+  deterministic fill tp = true -> info_via c = ViaFilename -> render tp s e fill = Ok n ->
+  exists attrs, attrs_are fill tp attrs /\ info c tp n = Ok (s, e, attrs).
+Proof. exact end_partial_exact_info_thm. Qed.
+
+(* the start is recovered for each end kind of the statement: none, complete, sub-day suffix *)
+Theorem roundtrip_start : forall c tp s e fill n,
+  start_ok tp s -> valid e -> s <= e ->
+  (end_fields tp = [] /\ (forall d, coverage c = Some d -> valid (s + d)) \/
+   end_full tp = true /\ in_range (end_fields tp) (fields e) = true /\ at_resolution (end_fields tp) (fields e) = true
+     /\ no_parse_only (end_fields tp) = true \/
+   end_partial tp = true /\ (forall r, complete tp (fields s) (fields e) = Some r -> valid (roll (unit_above tp) s r))) ->
   deterministic fill tp = true -> info_via c = ViaFilename -> render tp s e fill = Ok n ->
   exists e' attrs, attrs_are fill tp attrs /\ info c tp n = Ok (s, e', attrs).
-Proof.
-  intros c tp s e fill n Hs Ve Hse Hnp [(Hne & Hye & Hcov)|(Hf & Hr & Ha)] Hdet Hv Hr'.
-  - destruct (no_end_fields_thm c tp s e fill n Hs Ve Hye Hne Hdet Hv Hr') as (attrs & Hat & Hi).
-    destruct (coverage c) as [d|] eqn:Ec.
-    + specialize (Hcov d eq_refl). apply validb_iff in Hcov. unfold add in Hi. rewrite Hcov in Hi. eauto.
-    + eauto.
-  - destruct (roundtrip_end_full_thm c tp s e fill n Hs Ve Hse Hf Hr Ha Hnp Hdet Hv Hr') as (attrs & Hat & Hi). eauto.
-Qed.
+Proof. exact roundtrip_start_thm. Qed.
 
 (* info_via = 'both': the handler's times and attributes override those of the file name (FileInfo.update) *)
 Theorem handler_overrides : forall c tp s e fill n,
@@ -72,6 +113,16 @@ Theorem handler_overrides : forall c tp s e fill n,
                            (orelse (h_end c) (match end_fields tp with [] => None | _ => Some e end))
                            (upd_attrs attrs (h_attr c)).
 Proof. exact handler_overrides_thm. Qed.
+
+Theorem handler_overrides_partial : forall c tp s e fill n,
+  start_ok tp s -> valid e -> s <= e -> end_partial tp = true ->
+  deterministic fill tp = true -> info_via c = ViaBoth -> render tp s e fill = Ok n ->
+  exists r attrs, complete tp (fields s) (fields e) = Some r /\ attrs_are fill tp attrs /\
+    info c tp n = if validb (roll (unit_above tp) s r)
+                  then finish c (orelse (h_start c) (Some s)) (orelse (h_end c) (Some (roll (unit_above tp) s r)))
+                              (upd_attrs attrs (h_attr c))
+                  else Error EOverflow.
+Proof. exact handler_overrides_partial_thm. Qed.
 
 Theorem handler_only : forall c tp n, info_via c = ViaHandler ->
   info c tp n = finish c (h_start c) (h_end c) (h_attr c).
@@ -113,11 +164,68 @@ Proof.
   unfold start_ok, valid. vm_compute. repeat split; try reflexivity; discriminate.
 Qed.
 
+(* non-vacuity of the sub-day end kind: end_hour+end_minute rolled over the year end and into a leap day (the exact
+   class: the end comes back as e), a period longer than the unit (the promised end is the first such time after s,
+   not e), end_minute+end_second rolled by one hour across 1999-12-31 / 2000-01-01 with year2 and doy *)
+Example nonvacuous_partial :
+  let tp := [Lit (s2l "/vt/"); T false FYear; Lit (s2l "/"); U (s2l "sat") (Some UAny); Lit (s2l "_");
+             T false FYear; T false FMonth; T false FDay; Lit (s2l "T"); T false FHour; T false FMinute; Lit (s2l "-");
+             T true FHour; T true FMinute; Lit (s2l ".nc")] in
+  let tp2 := [Lit (s2l "/vt/"); T false FYear2; T false FDoy; Lit (s2l "."); T false FHour; T false FMinute;
+              T false FSecond; Lit (s2l "_"); T true FMinute; T true FSecond; Lit (s2l ".dat")] in
+  let fill := [(KU (s2l "sat"), s2l "noaa18")] in
+  let c := Cfg ViaFilename None None None [] in
+  exists s e s1 e1 s2 e2 r2 s3 e3,
+    mk 2015 12 31 23 30 0 0 = Some s /\ mk 2016 1 1 0 10 0 0 = Some e /\
+    mk 2016 2 28 23 50 0 0 = Some s1 /\ mk 2016 2 29 0 5 0 0 = Some e1 /\
+    mk 2016 2 29 7 0 0 0 = Some s2 /\ mk 2016 3 2 6 15 0 0 = Some e2 /\ mk 2016 3 1 6 15 0 0 = Some r2 /\
+    mk 1999 12 31 23 59 30 0 = Some s3 /\ mk 2000 1 1 0 0 10 0 = Some e3 /\
+    start_ok tp s /\ valid e /\ end_partial tp = true /\ end_exact tp (fields e) = true /\ 0 <= e - s < unit_above tp /\
+    deterministic fill tp = true /\ unit_above tp = us_day /\
+    render tp s e fill = Ok (s2l "/vt/2015/noaa18_20151231T2330-0010.nc") /\
+    info c tp (s2l "/vt/2015/noaa18_20151231T2330-0010.nc") = Ok (s, e, [(s2l "sat", s2l "noaa18")]) /\
+    start_ok tp s1 /\ end_exact tp (fields e1) = true /\ 0 <= e1 - s1 < unit_above tp /\
+    info c tp (s2l "/vt/2016/noaa18_20160228T2350-0005.nc") = Ok (s1, e1, [(s2l "sat", s2l "noaa18")]) /\
+    start_ok tp s2 /\ s2 <= e2 /\ render tp s2 e2 fill = Ok (s2l "/vt/2016/noaa18_20160229T0700-0615.nc") /\
+    info c tp (s2l "/vt/2016/noaa18_20160229T0700-0615.nc") = Ok (s2, r2, [(s2l "sat", s2l "noaa18")]) /\
+    start_ok tp2 s3 /\ end_partial tp2 = true /\ end_exact tp2 (fields e3) = true /\ unit_above tp2 = us_hour /\
+    0 <= e3 - s3 < unit_above tp2 /\ deterministic [] tp2 = true /\
+    render tp2 s3 e3 [] = Ok (s2l "/vt/99365.235930_0010.dat") /\
+    info c tp2 (s2l "/vt/99365.235930_0010.dat") = Ok (s3, e3, []).
+Proof.
+  do 9 eexists. do 9 (split; [vm_compute; reflexivity|]).
+  unfold start_ok, valid. vm_compute. repeat split; try reflexivity; discriminate.
+Qed.
+
+(* non-vacuity of the rejection clause: the generated name is an instance with exactly the strings written, a
+   name with a three-digit hour-minute field is no instance for any strings *)
+Example nonvacuous_reject :
+  let tp := [Lit (s2l "/vt/"); U (s2l "sat") (Some (UAlts [s2l "noaa"; s2l "metop"])); Lit (s2l "_"); T false FYear;
+             T false FDoy; Lit (s2l "."); T false FHour; T false FMinute; Lit (s2l ".nc")] in
+  existsb unknown_tok tp = false /\
+  is_instance tp [(KU (s2l "sat"), s2l "metop"); (KT false FYear, s2l "2016"); (KT false FDoy, s2l "366");
+                  (KT false FHour, s2l "23"); (KT false FMinute, s2l "59")] (s2l "/vt/metop_2016366.2359.nc") /\
+  (forall b, ~ is_instance tp b (s2l "/vt/metop_2016366.235.nc")) /\
+  (forall b, ~ is_instance tp b (s2l "/vt/metopa_2016366.2359.nc")).
+Proof.
+  cbv zeta. split; [reflexivity|]. split.
+  - exists [], (s2l "/vt/metop_2016366.2359.nc"). split; [vm_compute; reflexivity|left; reflexivity].
+  - split; apply rejected_iff_thm; vm_compute; reflexivity.
+Qed.
+
 Print Assumptions parse_render.
+Print Assumptions parse_sound.
+Print Assumptions parse_complete.
+Print Assumptions rejected_iff_no_instance.
+Print Assumptions instance_certificate.
 Print Assumptions no_end_fields.
 Print Assumptions roundtrip_end_full.
-Print Assumptions roundtrip_start_partial.
+Print Assumptions roundtrip_end_partial.
+Print Assumptions end_partial_exact.
+Print Assumptions roundtrip_end_partial_exact.
+Print Assumptions roundtrip_start.
 Print Assumptions handler_overrides.
+Print Assumptions handler_overrides_partial.
 Print Assumptions handler_only.
 Print Assumptions unknown_placeholder.
 Print Assumptions unfilled_placeholder.
